@@ -68,7 +68,11 @@ def _forced_cuts(conn):
     forced = {False: set(), True: set()}
     off = {False: 0, True: 0}
     ev = conn.events
-    for i, (srv, data, _) in enumerate(ev):
+    for i, (srv, data, tag) in enumerate(ev):
+        if tag == "ALERT" and i > conn.hs_last:
+            # a closing alert travels in a segment of its own: everything sent before it is captured before it ("data after an alert" is
+            # not claimed, and in a capture that means data CAPTURED after the alert)
+            forced[srv].add(off[srv])
         off[srv] += len(data)
         if i <= conn.hs_last and i + 1 < len(ev) and ev[i + 1][0] != srv:
             forced[srv].add(off[srv])
@@ -447,8 +451,11 @@ def write_capture(b, workdir, pkts=None, container=None, keys=None, name="in"):
             kk = dict(k)
             kk["seed"] = k.get("seed", 0) + 17 * (j + 1)
             dsbs.append(("dsb", keylog_text(lines, kk).encode()))
+        pre_idb = []
         if dsbs:
-            if k["dsb_pos"] == "first":
+            if k["dsb_pos"] == "before_idb":      # a DSB may precede the interface description block
+                pre_idb = dsbs
+            elif k["dsb_pos"] == "first":
                 items = dsbs + items
             else:   # spread: positions derived from the seed (TLS-only captures may have them anywhere)
                 rnd = random.Random(k.get("seed", 0) + 99)
@@ -471,7 +478,7 @@ def write_capture(b, workdir, pkts=None, container=None, keys=None, name="in"):
             items.insert(pos % (len(items) + 1), ("raw", btype, body))
         path = os.path.join(workdir, name + ".pcapng")
         netio.write_pcapng(path, items, endian=c["endian"], tsresol=c["tsresol"], tsoffset=c["tsoffset"], offset_first=bool(c.get("offset_first")),
-                           snaplen=c.get("snaplen", 0))
+                           snaplen=c.get("snaplen", 0), pre_idb=pre_idb)
     else:
         path = os.path.join(workdir, name + ".pcap")
         netio.write_pcap(path, items, endian=c["endian"], nano=c["nano"])
